@@ -5,6 +5,7 @@ import (
 	"fmt"
 	"os"
 	"strings"
+	"time"
 
 	"github.com/cosmos/iavl"
 	dbm "github.com/cosmos/iavl/db"
@@ -218,7 +219,9 @@ func execFaultBigImport(leaves int) string {
 
 func faultImportNodes(nodes []*iavl.ExportNode, v int64, wantHash []byte, wantSize int64) string {
 	var failNth map[string]int // set for the runs that fail the k-th batch write whatever its position
-	run := func(failAt map[int]bool, trace bool) (*hooks, *dbm.MemDB, error) {
+	hung := false
+	var run func(failAt map[int]bool, trace bool) (*hooks, *dbm.MemDB, error)
+	run1 := func(failAt map[int]bool, trace bool) (*hooks, *dbm.MemDB, error) {
 		db := dbm.NewMemDB()
 		h := &hooks{failAt: failAt, trace: trace, failNth: failNth}
 		wdb := &wrapDB{inner: db, h: h}
@@ -236,7 +239,30 @@ func faultImportNodes(nodes []*iavl.ExportNode, v int64, wantHash []byte, wantSi
 		}
 		return h, db, imp.Commit()
 	}
+	// watchdog: an import that never returns (Add, Commit or the deferred Close) is a verdict
+	run = func(failAt map[int]bool, trace bool) (*hooks, *dbm.MemDB, error) {
+		type res struct {
+			h   *hooks
+			db  *dbm.MemDB
+			err error
+		}
+		done := make(chan res, 1)
+		go func() {
+			h, db, err := run1(failAt, trace)
+			done <- res{h, db, err}
+		}()
+		select {
+		case r := <-done:
+			return r.h, r.db, r.err
+		case <-time.After(60 * time.Second):
+			hung = true
+			return &hooks{}, dbm.NewMemDB(), fmt.Errorf("hang")
+		}
+	}
 	ref, _, err := run(nil, true)
+	if hung {
+		return fmt.Sprintf("fl(viol,op=import_%d,i=0/0,kind=hang,fault=none,got=hang);ok", v)
+	}
 	if err != nil {
 		return "fl(skip);ok"
 	}
@@ -264,6 +290,9 @@ func faultImportNodes(nodes []*iavl.ExportNode, v int64, wantHash []byte, wantSi
 		failNth = map[string]int{"bwrite": k}
 		h, db, err := run(nil, false)
 		failNth = nil
+		if hung {
+			return fmt.Sprintf("fl(viol,op=import_%d,i=%d/%d,kind=hang,fault=bwrite%d,got=hang);ok", v, 10001*k, n, k)
+		}
 		injected += h.failed
 		if h.failed == 0 {
 			continue
@@ -284,6 +313,9 @@ func faultImportNodes(nodes []*iavl.ExportNode, v int64, wantHash []byte, wantSi
 			continue
 		}
 		h, db, err := run(map[int]bool{i: true}, false)
+		if hung {
+			return fmt.Sprintf("fl(viol,op=import_%d,i=%d/%d,kind=hang,fault=call,got=hang);ok", v, i, n)
+		}
 		injected += h.failed
 		if h.failed == 0 {
 			continue
